@@ -18,6 +18,7 @@ import (
 	"bytes"
 	"context"
 	"crypto/sha256"
+	"crypto/sha512"
 	"encoding/json"
 	"errors"
 	"flag"
@@ -121,6 +122,9 @@ type wireOpts struct {
 	Maxpage  int  `json:"maxpage"`
 	Omitdig  bool `json:"omitdig"`
 	Omitlink bool `json:"omitlink"`
+	// Locs: Options.LocationsForDescriptor. "nil" (or ""): not set; "one" / "many": it returns
+	// https://cdn.test/<digest>/1 (and .../2); "none": no location; "err": an error.
+	Locs string `json:"locs"`
 }
 
 type wireWant struct {
@@ -534,6 +538,9 @@ func wireRun(c wireCase) (ev any) {
 	if c.Sc.Rcerr == "" {
 		c.Sc.Rcerr = "ok"
 	}
+	if c.O.Locs == "" {
+		c.O.Locs = "nil"
+	}
 	defer func() {
 		if r := recover(); r != nil {
 			ev = wirePanicEv{Op: "panic", Msg: wirePrintable(fmt.Sprintf("%v [%s %s]", r, c.Rq.M, c.Rq.Path.str())), In: c}
@@ -541,7 +548,23 @@ func wireRun(c wireCase) (ev any) {
 	}()
 
 	backend := &wireBackend{sc: &c.Sc}
+	var lfd func(isManifest bool, desc ociregistry.Descriptor) ([]string, error)
+	if c.O.Locs != "nil" {
+		lfd = func(isManifest bool, desc ociregistry.Descriptor) ([]string, error) {
+			base := "https://cdn.test/" + string(desc.Digest) + "/"
+			switch c.O.Locs {
+			case "one":
+				return []string{base + "1"}, nil
+			case "many":
+				return []string{base + "1", base + "2"}, nil
+			case "none":
+				return []string{}, nil
+			}
+			return nil, errors.New("scripted failure of LocationsForDescriptor")
+		}
+	}
 	srv := ociserver.New(backend.funcs(), &ociserver.Options{
+		LocationsForDescriptor:       lfd,
 		DisableReferrersAPI:          c.O.Noref,
 		DisableSinglePostUpload:      c.O.Nosingle,
 		MaxListPageSize:              c.O.Maxpage,
@@ -988,6 +1011,8 @@ func wireRandom(r *rand.Rand) wireCase {
 		c.Rq.Body = wireBody{Bytes: wireOf(wb.data), Json: wb.class, Subj: wireOf(wb.subj)}
 	}
 	bodySha := wireSha([]byte(c.Rq.Body.Bytes.str()))
+	// the digests of the body under the other registered algorithms (a manifest may be addressed by them)
+	bodyOther := wireOne(r, fmt.Sprintf("sha512:%x", sha512.Sum512([]byte(c.Rq.Body.Bytes.str()))), fmt.Sprintf("sha384:%x", sha512.Sum384([]byte(c.Rq.Body.Bytes.str()))))
 	// a well-formed request of a random kind ...
 	validRepo := func() string {
 		n := 1 + r.Intn(3)
@@ -1051,7 +1076,7 @@ func wireRandom(r *rand.Rand) wireCase {
 	case 13:
 		c.Rq.M, path = "HEAD", "/v2/"+repo+"/manifests/"+wireOne(r, validTag(), validDigest())
 	case 14, 15:
-		c.Rq.M, path = "PUT", "/v2/"+repo+"/manifests/"+wireOne(r, validTag(), bodySha, bodySha, validDigest())
+		c.Rq.M, path = "PUT", "/v2/"+repo+"/manifests/"+wireOne(r, validTag(), bodySha, bodySha, validDigest(), bodyOther)
 	case 16:
 		c.Rq.M, path = "DELETE", "/v2/"+repo+"/manifests/"+wireOne(r, validTag(), validDigest())
 	case 17:
@@ -1164,8 +1189,12 @@ func wireRandom(r *rand.Rand) wireCase {
 	}
 	c.Sc.Rcerr = ans(88)
 	// options
+	c.O.Locs = "nil"
+	if r.Intn(6) == 0 {
+		c.O.Locs = wireOne(r, "one", "many", "none", "err")
+	}
 	if r.Intn(3) == 0 {
-		c.O = wireOpts{Noref: r.Intn(2) == 0, Nosingle: r.Intn(2) == 0, Maxpage: r.Intn(4), Omitdig: r.Intn(2) == 0, Omitlink: r.Intn(2) == 0}
+		c.O = wireOpts{Noref: r.Intn(2) == 0, Nosingle: r.Intn(2) == 0, Maxpage: r.Intn(4), Omitdig: r.Intn(2) == 0, Omitlink: r.Intn(2) == 0, Locs: c.O.Locs}
 	}
 	return c
 }
